@@ -14,7 +14,8 @@ RULE = (
     "duplicate fields / arguments / members / interfaces / input fields; input types in output "
     "positions and vice versa through wrappers; interface field missing / wrong type / not covariant "
     "through list and non-null nesting / argument missing, retyped or extra required; non-object union "
-    "members and roots; missing query type; six resolver-signature faults), singly and in "
+    "members and roots; missing query type; six resolver-signature faults; one callable shared by two "
+    "fields of which it fits only one), singly and in "
     "combinations of 2-4: validate_schema must raise SchemaValidationError whose messages name every "
     "injected element (all violations reported together), identically for every type ordering; "
     "histories of register_resolver / register_default_resolver / register_subscription with bad and "
